@@ -13,7 +13,7 @@ pub fn def() -> PropDef {
         job_level,
         run_job,
         replay,
-        rule: "config: virtual key v1 = x (and v2 = layer-while-held, observed through a layer-dependent key) operated by: physical keys with (on-press press|release|tap|toggle-vkey), (on-release toggle-vkey), a macro item, the TCP path (handle_fakekey_action exactly as tcp_server.rs calls it: press/release/tap/toggle), (hold-for-duration 4) and (hold-for-duration 14), and a completed defseq sequence. Histories: ALL sequences of N operations over this 12-operation alphabet with inter-operation gaps from {3,4,5,9,14,15} (quick: N=3 with all gaps and N=4 with gaps {3,9}; thorough: N=4 with all gaps), then settle; a race family with gaps {0,1} over the TCP operations only; on-idle family through the idle loop twin (can_block_update_idle_waiting/tick): idle time I in {4,6}, activity injected at every offset. Oracle VkeySpec: one boolean per virtual key (press sets, release clears, tap pulses, toggle flips; identical from every source); number of press pulses of x and final state equal the model's; hold-for-duration: x goes up exactly D ticks after the arrival of the most recent activation when nothing else touches the key in between, never earlier; on-idle: fires exactly once, I idle ticks after the last activity, not before.",
+        rule: "config: virtual key v1 = x (and v2 = layer-while-held, observed through a layer-dependent key) operated by: physical keys with (on-press press|release|tap|toggle-vkey), (on-release toggle-vkey), a macro item, the TCP path (handle_fakekey_action exactly as tcp_server.rs calls it: press/release/tap/toggle), (hold-for-duration 4) and (hold-for-duration 14), and a completed defseq sequence. Histories: ALL sequences of N operations over this 12-operation alphabet with inter-operation gaps from {3,4,5,9,14,15} (quick: N=3 with all gaps and N=4 with gaps {3,9}; thorough: N=4 with all gaps), then settle; a race family with gaps {0,1} over the TCP operations only; a layer family (the virtual key's action is layer-while-held; press / release / toggle from physical keys, a macro, on-release and the TCP path; ALL operation sequences of length <= 4 with a layer-dependent probe key tapped after every operation); on-idle family through the idle loop twin (can_block_update_idle_waiting/tick): idle time I in {4,6}, activity injected at every offset. Oracle VkeySpec: one boolean per virtual key (press sets, release clears, tap pulses, toggle flips; identical from every source); number of press pulses of x and final state equal the model's; hold-for-duration: x goes up exactly D ticks after the arrival of the most recent activation when nothing else touches the key in between, never earlier; on-idle: fires exactly once, I idle ticks after the last activity, not before.",
         assumptions: &["operations are at least 3 ticks apart in the main family so that each has been processed before the next reads the key state (the 0/1-tick race family is reported separately)", "the TCP source is exercised through the function tcp_server.rs calls, not through a socket"],
         required_level,
         min_outcomes: 3,
@@ -76,6 +76,8 @@ enum Job {
     Race,
     OnIdle,
     Sequence,
+    /// virtual key whose action holds a layer, observed through a layer-dependent probe key
+    LayerKey,
 }
 
 fn jobs(tier: Tier) -> &'static Vec<Job> {
@@ -86,7 +88,7 @@ fn jobs(tier: Tier) -> &'static Vec<Job> {
         Tier::Thorough => &T,
     };
     cell.get_or_init(|| {
-        let mut v = vec![Job::Race, Job::OnIdle, Job::Sequence];
+        let mut v = vec![Job::Race, Job::OnIdle, Job::Sequence, Job::LayerKey];
         for first in 0..OPS.len() * GAPS.len() {
             v.push(Job::Main { first, n: 3, level: 0, restricted: false });
             if GAPS[first % GAPS.len()] == 3 || GAPS[first % GAPS.len()] == 9 {
@@ -406,6 +408,105 @@ fn run_sequence(st: &mut Stats, found: &mut Vec<Violation>) {
     }
 }
 
+/// Layer family: v1 = (layer-while-held nav). Operations from physical keys (press / release / toggle,
+/// on-release toggle, macro toggle) and the TCP path (press / release / toggle); after EVERY operation a
+/// probe key is tapped: it outputs Y on nav and X on base. ALL operation sequences of length <= 4.
+const LCFG: &str = "(defcfg)\n(defsrc a b d g h p)\n(defvirtualkeys v1 (layer-while-held nav))\n(deflayer base (on-press press-vkey v1) (on-press release-vkey v1) (on-press toggle-vkey v1) (macro (on-press toggle-vkey v1)) (on-release toggle-vkey v1) x)\n(deflayer nav _ _ _ _ _ y)\n";
+
+fn run_layer_key(st: &mut Stats, found: &mut Vec<Violation>) {
+    #[derive(Clone, Copy, Debug, PartialEq)]
+    enum LOp {
+        Press,
+        Release,
+        Toggle,
+    }
+    // (name, events, effect)
+    let tapk = |k: &str| vec![Ev::P(kc(k)), Ev::T(1), Ev::R(kc(k))];
+    let ops: Vec<(&str, Vec<Ev>, LOp)> = vec![
+        ("KPress", tapk("a"), LOp::Press),
+        ("KRelease", tapk("b"), LOp::Release),
+        ("KToggle", tapk("d"), LOp::Toggle),
+        ("MacroToggle", tapk("g"), LOp::Toggle),
+        ("OnReleaseToggle", tapk("h"), LOp::Toggle),
+        ("TcpPress", vec![Ev::Vk(0, 0)], LOp::Press),
+        ("TcpRelease", vec![Ev::Vk(0, 1)], LOp::Release),
+        ("TcpToggle", vec![Ev::Vk(0, 3)], LOp::Toggle),
+    ];
+    if let Err(e) = Sim::new(LCFG) {
+        found.push(Violation { property: "C18".into(), signature: "layer-key/rejected".into(), what: e.chars().take(300).collect(), detail: json!({"kind": "layer-key", "cfg": LCFG, "history": ""}) });
+        return;
+    }
+    let n = ops.len();
+    let mut idx = vec![0usize; 4];
+    for len in 1..=4usize {
+        for i in idx.iter_mut() {
+            *i = 0;
+        }
+        loop {
+            // build and run
+            let mut h: Vec<Ev> = vec![Ev::T(3)];
+            let mut state = false;
+            let mut expect: Vec<&str> = vec![];
+            let mut names = vec![];
+            for k in 0..len {
+                let (name, evs, eff) = &ops[idx[k]];
+                names.push(*name);
+                h.extend(evs.iter().copied());
+                h.push(Ev::T(4));
+                state = match eff {
+                    LOp::Press => true,
+                    LOp::Release => false,
+                    LOp::Toggle => !state,
+                };
+                // probe
+                h.extend(tapk("p"));
+                h.push(Ev::T(4));
+                expect.push(if state { "Y" } else { "X" });
+            }
+            crate::par::announce(LCFG, &h);
+            st.evaluations += 1;
+            match crate::sim::run_fresh(LCFG, &h) {
+                Err(m) => {
+                    if found.len() < 3 {
+                        found.push(mk_violation("C18", format!("layer-key/{}", panic_signature(&m)), m, "layer-key", LCFG, &h, json!({})));
+                    }
+                }
+                Ok((_, tr)) => {
+                    st.validated += 1;
+                    st.transitions += h.len() as u64;
+                    let got: Vec<String> = tr.iter().filter_map(|(_, o)| if let Out::Down(k) = o { Some(k.clone()) } else { None }).collect();
+                    st.outcome(if state { "layer-key-on" } else { "layer-key-off" });
+                    if got != expect && found.len() < 3 && !found.iter().any(|f| f.signature == "layer-key/state") {
+                        found.push(mk_violation(
+                            "C18",
+                            "layer-key/state".into(),
+                            format!("virtual key holding a layer, operations {names:?}: the probe key shows {got:?} after each operation (Y = layer on), the model (press sets, release clears, toggle flips) expects {expect:?}"),
+                            "layer-key",
+                            LCFG,
+                            &h,
+                            json!({}),
+                        ));
+                    }
+                }
+            }
+            // next index vector
+            let mut k = 0;
+            while k < len {
+                idx[k] += 1;
+                if idx[k] < n {
+                    break;
+                }
+                idx[k] = 0;
+                k += 1;
+            }
+            if k == len {
+                break;
+            }
+        }
+    }
+    st.sample(json!({"family": "layer-key", "cfg": LCFG, "sequences": "all operation sequences of length 1..4 over 8 operations"}));
+}
+
 fn run_job(tier: Tier, idx: usize, st: &mut Stats) {
     if idx == 0 {
         if let Err(e) = Sim::new(CFG) {
@@ -425,6 +526,7 @@ fn run_job(tier: Tier, idx: usize, st: &mut Stats) {
         Job::Race => run_race(st, &mut found),
         Job::OnIdle => run_on_idle(st, &mut found),
         Job::Sequence => run_sequence(st, &mut found),
+        Job::LayerKey => run_layer_key(st, &mut found),
     }
     for v in found {
         st.violation(v);
@@ -438,6 +540,7 @@ fn replay(d: &serde_json::Value) -> Vec<Violation> {
         "on-idle" => run_on_idle(&mut st, &mut found),
         "sequence" => run_sequence(&mut st, &mut found),
         "race" => run_race(&mut st, &mut found),
+        "layer-key" => run_layer_key(&mut st, &mut found),
         _ => {
             if let Some(ops) = d.get("extra").and_then(|e| e.get("ops")).and_then(|o| o.as_array()) {
                 let ops: Vec<(u32, Op)> = ops.iter().filter_map(|x| x.as_u64()).map(|i| (GAPS[i as usize % GAPS.len()], OPS[i as usize / GAPS.len()])).collect();
